@@ -199,12 +199,29 @@ class Sim(object):
 # --------------------------------------------------------------------------------------
 # replay files, shrinking
 # --------------------------------------------------------------------------------------
+def run_guarded(check, sim, params):
+    """check.run_one with a safety net: an exception that was raised inside the nfc package and went through
+    the harness uncaught is a verdict about the repository ('unexpected-exception|<type>@<module:function>'),
+    not a harness error.  On the unchanged tree no check produces one; a change to the repository that makes a
+    call raise where the harness did not expect it is then still reported with a replay file."""
+    try:
+        with quiet_stdout():
+            check.run_one(sim, params)
+    except (Violation, BudgetExceeded, HarnessError):
+        raise
+    except Exception as e:
+        site = exc_site(e)
+        if site.endswith("@?"):
+            raise
+        raise Violation("unexpected-exception", site, "%r (%s) left the repository code where the harness expected "
+                        "a result; harness frames: %s" % (e, exc_line(e), tb_short(e, 4).replace("\n", " | ")[-400:]))
+
+
 def execute(check, params, seed=None, replay=None, keep_events=True):
     """Run one simulated run of `check`.  Returns (sim, violation-or-None)."""
     sim = Sim(seed=seed, replay=replay, keep_events=keep_events)
     try:
-        with quiet_stdout():
-            check.run_one(sim, params)
+        run_guarded(check, sim, params)
     except Violation as v:
         return sim, v
     return sim, None
